@@ -797,8 +797,8 @@ pub fn lig_coordinated_vectors_forgery(rec: &mut Rec) {
                             "LIG",
                             "check",
                             "forged:both-vectors-replaced-in-a-coordinated-way",
-                            &format!("{}/{}/{}/{}", id, dn, prefix, form),
-                            format!("v_wf + d and v - d*k with k from the scalar predictable {}; combination {}; genuine columns and paths at the replayed positions", prefix, form),
+                            &id,
+                            format!("defect {}: v_wf + d and v - d*k with k from the scalar predictable {}; combination {}; genuine columns and paths at the replayed positions", dn, prefix, form),
                         );
                     }
                 }
